@@ -117,7 +117,7 @@ def answer2 (r : M (((Float × Float) × Slot) × Nat)) : String :=
   | .ok (((a, b), s), l) => "ok " ++ fmtF a ++ " " ++ fmtF b ++ " " ++ fmtSlot s ++ fmtLive l
   | .error e => fmtAbort e
 
-def handle (fixed : Bool) (t : Array String) : Option String := do
+def handle (fixed rfixed : Bool) (t : Array String) : Option String := do
   if t.size != 7 then none
   let kind := t[0]!
   let slot := if t[1]! == "N" then Slot.null else Slot.empty
@@ -129,25 +129,26 @@ def handle (fixed : Bool) (t : Array String) : Option String := do
   let vals ← pVals (t[6]!.drop 2).toString
   match kind with
   | "cp" => some (answer1 ((if fixed then cpFixed else cp) parse nist (elemental vals 0) slot BASE))
-  | "re" => some (answer1 (refrRe parse nist (elemental vals 0) (elemental vals 1) E density slot BASE))
-  | "im" => some (answer1 (refrIm parse nist (elemental vals 2) E density slot BASE))
-  | "cx" => some (answer2 (refr parse nist (elemental vals 0) (elemental vals 1) (elemental vals 2) E density slot BASE))
-  | "cx2" => some (answer2 (refr2 parse nist (elemental vals 0) (elemental vals 1) (elemental vals 2) E density slot BASE))
+  | "re" => some (answer1 ((if rfixed then refrReFixed else refrRe) parse nist (elemental vals 0) (elemental vals 1) E density slot BASE))
+  | "im" => some (answer1 ((if rfixed then refrImFixed else refrIm) parse nist (elemental vals 2) E density slot BASE))
+  | "cx" => some (answer2 ((if rfixed then refrFixed else refr) parse nist (elemental vals 0) (elemental vals 1) (elemental vals 2) E density slot BASE))
+  | "cx2" => some (answer2 ((if rfixed then refr2Fixed else refr2) parse nist (elemental vals 0) (elemental vals 1) (elemental vals 2) E density slot BASE))
   | _ => none
 
-partial def loop (fixed : Bool) (h : IO.FS.Stream) (out : IO.FS.Stream) : IO Unit := do
+partial def loop (fixed rfixed : Bool) (h : IO.FS.Stream) (out : IO.FS.Stream) : IO Unit := do
   let line ← h.getLine
   if line.isEmpty then return ()
   let t := ((line.trimAscii.toString.splitOn " ").filter (· ≠ "")).toArray
-  if t.size = 0 then loop fixed h out else
-  match handle fixed t with
+  if t.size = 0 then loop fixed rfixed h out else
+  match handle fixed rfixed t with
   | some s => out.putStrLn s
   | none => out.putStrLn "bad-request"
-  loop fixed h out
+  loop fixed rfixed h out
 
-/-- `c06-model [fixed]`: `fixed` selects the `_CP` body after the proposed repair C06-1 (the check passes it when the AST shows that body) -/
+/-- `c06-model [fixed] [rfixed]`: `fixed` selects the `_CP` body after the repair C06-1, `rfixed` the refractive-index bodies after the proposed
+repair C06-7 (the check passes each switch when the AST shows that body) -/
 def main (argv : List String) : IO UInt32 := do
   let out ← IO.getStdout
-  loop (argv.contains "fixed") (← IO.getStdin) out
+  loop (argv.contains "fixed") (argv.contains "rfixed") (← IO.getStdin) out
   out.flush
   return 0
